@@ -70,7 +70,7 @@ func main() {
 	seed := flag.Int64("seed", 1, "seed for -random")
 	shard := flag.Int("shard", 0, "process only cases with index % nshards == shard")
 	nshards := flag.Int("nshards", 1, "number of shards")
-	dump := flag.String("dump", "", "with -random: write the generated cases here")
+	dump := flag.String("dump", "", "with -random: write the generated cases here and exit")
 	verbose := flag.Bool("v", false, "perkeep logs to stderr")
 	flag.Parse()
 	if !*verbose {
@@ -97,6 +97,8 @@ func main() {
 				e.Encode(g)
 			}
 			f.Close()
+			fmt.Printf("generated=%d\n", len(gens))
+			return
 		}
 	} else {
 		f, err := os.Open(*worldsF)
